@@ -916,8 +916,9 @@ pub fn check_case(cx: &mut Ctx, case: &Case, mut rep: Option<&mut Report>) -> Ve
     let burst_may_be_over = match &case.file {
         FileSpec::Szx(s) => {
             let pos = |k: &Ck| s.order.iter().position(|c| c == k);
-            match (pos(&Ck::Z80r), pos(&Ck::Ay), pos(&Ck::Spcr)) {
-                (Some(z), Some(a), Some(sp)) => z < sp && a < sp && s.cycles > 2000,
+            // (without an AY chunk the receiver's chip simply keeps running through the catch-up)
+            match (pos(&Ck::Z80r), pos(&Ck::Spcr)) {
+                (Some(z), Some(sp)) => z < sp && pos(&Ck::Ay).map_or(true, |a| a < sp) && s.cycles > 2000,
                 _ => false,
             }
         }
